@@ -74,6 +74,22 @@ class Prop(BaseProp):
                         out.append(f(nd))
                     except Exception:
                         out.append("EXC")
+                # one PublicKey object reused across requests, in both orders
+                try:
+                    pk = nd.public_key
+                    pk.address(compressed=True, testnet=case["testnet"], addr_type="p2pkh")
+                    pk.address(compressed=True, testnet=case["testnet"], addr_type="p2wpkh")
+                    pk.h160()
+                    out.append(pk.address(compressed=False, testnet=case["testnet"], addr_type="p2pkh"))
+                except Exception:
+                    out.append("EXC")
+                try:
+                    pk = nd.public_key
+                    pk.address(compressed=False, testnet=case["testnet"], addr_type="p2pkh")
+                    pk.h160(compressed=False)
+                    out.append(pk.address(compressed=True, testnet=case["testnet"], addr_type="p2pkh"))
+                except Exception:
+                    out.append("EXC")
             return {"ob": out, "sha": rec.sha_table(), "err": False}
         if k == "Rmd":
             from btc_hd_wallet.ripemd import ripemd160
